@@ -16,7 +16,7 @@ Limits == {0, 1, 2, 1000}
 
 VS5 == {-2, -1, 0, 1, 3}
 VS6 == {-3, -1, 0, 2, 4, 7}
-PctAll == {-100, -99, -90, -50, -10, -1, 1, 10, 50, 90, 99, 100}
+PctAll == {-100, -99, -90, -50, -10, -1, 0, 1, 10, 50, 90, 99, 100}
 
 VARIABLES vals, pat, tag, limit
 vars == <<vals, pat, tag, limit>>
